@@ -39,7 +39,7 @@ func init() {
 					}
 				}
 				build := false
-				ast.Inspect(h.Decl.Body, func(n ast.Node) bool {
+				h.inspect(h.Decl.Body, func(n ast.Node) bool {
 					if lit, ok := n.(*ast.BasicLit); ok && lit.Value == `"Build"` {
 						build = true
 					}
